@@ -8,6 +8,7 @@ From SV Require Import Fmt.LongString Fmt.LongStringProofs Fmt.FgdBin Fmt.FgdBin
 From SV Require Import Fmt.FgdBinEnt Fmt.FgdBinEntProofs Fmt.FgdLine Fmt.FgdLineProofs Fmt.FgdLineTextProofs Fmt.FgdBody Fmt.FgdBodyProofs.
 From SV Require Import Fmt.FgdHead Fmt.FgdHeadProofs Fmt.FgdEntity Fmt.FgdEntityProofs.
 From SV Require Import Fmt.FgdTypeText Fmt.FgdTypeTextProofs SM.FgdBlocks SM.FgdBlocksProofs Fmt.FgdKindKw Fmt.FgdKindKwProofs.
+From SV Require Import SM.FgdCopyShare SM.FgdCopyShareProofs.
 From SV Require Import Gen.FgdConsts_gen.
 Import ListNotations.
 Open Scope N_scope.
@@ -287,9 +288,55 @@ Theorem c16_entity_header_roundtrip :
   = Some (mk_head H (match bases with [] => false | _ => alias && custom end) bases hs cls (List.concat secs), rest).
 Proof. exact head_roundtrip. Qed.
 
-(** the `(a, b, c)` of a helper or of base(): `', '.join(args)` is split at ',' and stripped back to the arguments *)
-Theorem c16_helper_args_roundtrip : forall args, Forall arg_ok args -> paren_args (join_cs args) = args.
-Proof. exact paren_args_join. Qed.
+(** the `(a, b, c)` of a helper or of base(): `', '.join(args)` is split at ',' and stripped back to the arguments.  Round 5:
+    arguments may be BLANK at any position ([args_ok]: every argument stripped and comma-free, the list is not [['']]) — the writer
+    leaves an empty slot (`frustum(lightfov, , , lightcolor, -1)`) and the reader must keep it, because helper arguments are
+    positional.  The one list that cannot come back is the sole blank argument: `helper()` is read as no argument at all. *)
+Theorem c16_helper_args_roundtrip : forall args, args_ok args -> paren_args (join_cs args) = args.
+Proof. exact paren_args_join0. Qed.
+Theorem c16_helper_args_sole_blank : paren_args (join_cs [[]]) = [] /\ paren_args (join_cs []) = [].
+Proof. exact paren_args_sole_blank. Qed.
+(** [gen_args_cfg] is read off the PAREN_ARGS branch of EntityDef.parse on every run (separator, strip, the comprehension's
+    filter, the `['']` special case); [helper_arg_joiners] = every string literal whose .join() writes an argument list in
+    EntityDef.export.  EVERY configuration of today's shape computes [paren_args] on all inputs, hence reads back what was written. *)
+Definition helper_args_program_ok : bool := args_cfg_ok gen_args_cfg.
+(** computed witnesses with today's configuration: blank arguments at the first, a middle, the last and several positions come back
+    where they were, and `name()` is no argument *)
+Fixpoint strs_eqb (a b : list str) : bool :=
+  match a, b with [] , [] => true | x :: a', y :: b' => nlist_eqb x y && strs_eqb a' b' | _, _ => false end.
+Definition blank_witnesses : list (list str) :=
+  [[[108]; []; [99]]; [[]; [108]]; [[108]; []]; [[]; []]; [[108]; []; []; [99; 32; 100]; []]; [[]; []; []]].
+Definition helper_args_blank_kept : bool :=
+  forallb (fun l => strs_eqb (paren_args_with gen_args_cfg (join_cs l)) l) blank_witnesses.
+Definition helper_args_empty_parens_no_argument : bool :=
+  match paren_args_with gen_args_cfg [] with [] => true | _ => false end.
+Definition helper_args_joined_by_comma_blank : bool :=
+  negb (match helper_arg_joiners with [] => true | _ => false end) && forallb (nlist_eqb [COMMA; 32]) helper_arg_joiners.
+Definition helper_args_ok : bool := helper_args_program_ok && helper_args_joined_by_comma_blank.
+Theorem c16_helper_args_program_is_model : forall c, args_cfg_ok c = true -> forall s, paren_args_with c s = paren_args s.
+Proof. exact paren_args_with_is_model. Qed.
+Theorem c16_helper_args_program_roundtrip : forall c, args_cfg_ok c = true -> forall args, args_ok args ->
+  paren_args_with c (join_cs args) = args.
+Proof. exact paren_args_with_roundtrip. Qed.
+(** the nearby wrong shapes: a filter in the comprehension (`if arg.strip()` / `if arg`) also turns `helper()` into no argument, but
+    drops every blank argument, so the later ones shift left; without the special case `helper()` has one blank argument *)
+Definition filter_stripped_cfg : args_cfg := mk_args_cfg COMMA true FDropStripped false.
+Definition filter_raw_cfg : args_cfg := mk_args_cfg COMMA true FDropRaw true.
+Example c16_helper_args_filter_refuted :
+  let a := [108] in let b := [99] in
+  args_ok [a; []; []; b] /\ args_ok [[]; a]
+  /\ paren_args_with filter_stripped_cfg (join_cs [a; []; []; b]) = [a; b]
+  /\ paren_args_with filter_raw_cfg (join_cs [[]; a]) = [a]
+  /\ paren_args_with filter_stripped_cfg (join_cs []) = []
+  /\ paren_args_with (mk_args_cfg COMMA true FKeep false) (join_cs []) = [[]]
+  /\ paren_args (join_cs [a; []; []; b]) = [a; []; []; b] /\ paren_args (join_cs [[]; a]) = [[]; a].
+Proof.
+  cbv zeta. repeat split; try (vm_compute; reflexivity); try discriminate;
+    repeat (constructor; try (split; vm_compute; reflexivity)).
+Qed.
+Definition filter_blank_breaks : bool :=
+  negb (Nat.eqb (List.length (paren_args_with filter_stripped_cfg (join_cs [[108]; []; [99]]))) 3)
+  && negb (Nat.eqb (List.length (paren_args_with filter_raw_cfg (join_cs [[]; [108]]))) 2).
 
 (** Composition of the header with [c16_entity_body_roundtrip]: a WHOLE entity definition as written — header, `[`, keyvalue / input /
     output lines, @resources, `]` — is read back as the same header fields and the same body. *)
@@ -834,6 +881,50 @@ Example c16_kind_keyword_example :
   kw_dispatch true [[64; 105]] [pc] (kind_written ops pc) = KKind pc /\ kw_dispatch false [[64; 105]] [pc] (kind_written ops pc) = KError.
 Proof. vm_compute. auto. Qed.
 
+(** * What a copy shares with the cached definition (SM/FgdCopyShare.v; round 5)
+    EntityDef.engine_def() and FGD.engine_dbase() return deepcopy() results of the definitions the engine database caches, so a
+    history "look up, change the answer in place, look up again / load the whole database" gives the same definitions only if
+    EntityDef.__deepcopy__ (hand-written, field by field) re-creates every mutable object a caller can reach.
+    [entity_copy_plan] is read off the source on every run: for every attribute the shape its annotation promises and the
+    expression that produces the copy's value (KVDef.copy / IODef.copy followed into their constructor calls).
+    For EVERY shape, expression and value of that shape: if [isolates] accepts the pair, no object of the copy is an object of
+    the original, so no in-place change of anything reachable from the copy changes the original. *)
+Definition copy_field_isolates (f : string) : bool :=
+  match find (fun p => String.eqb (fst p) f) entity_copy_plan with Some (_, (t, e)) => isolates e t | None => false end.
+Definition entity_copy_isolates : bool := plan_isolates (map snd entity_copy_plan).
+(** [answer_copies]: what EntityDef.engine_def and the two return statements of FGD.engine_dbase hand out — `deepcopy(..)` of the
+    cached object (which runs EntityDef.__deepcopy__ for every definition) or the cached object itself *)
+Definition answers_are_deep_copies : bool := forallb (fun p => isolates (snd p) TAny) answer_copies.
+Definition state_isolated : bool := entity_copy_isolates && answers_are_deep_copies.
+Theorem c16_copy_is_fresh : forall base v e t, has_type t v = true -> isolates e t = true ->
+  Forall (fun a => base <= a) (addrs (do_copy base e v)).
+Proof. exact copy_is_fresh. Qed.
+Theorem c16_copy_isolated : forall base e t v, has_type t v = true -> isolates e t = true ->
+  Forall (fun a => a < base) (addrs v) ->
+  forall a new, In a (addrs (do_copy base e v)) -> update a new v = v.
+Proof. exact copy_isolated. Qed.
+Theorem c16_entity_copy_isolated : forall p : plan, plan_isolates p = true ->
+  forall t e, In (t, e) p -> forall base v, has_type t v = true -> Forall (fun a => a < base) (addrs v) ->
+  forall a new, In a (addrs (do_copy base e v)) -> update a new v = v.
+Proof. exact plan_isolated. Qed.
+(** the two wrong shapes that were met.  (1) the I/O maps are copied with `io_map.copy()`: the IODef objects (address 3) are
+    shared, renaming the copy's input renames the cached one.  (2) `copy.resources = self.resources` (repaired by 35646f6): the
+    list itself (address 1) is shared, an append through the copy is an append to the cached definition. *)
+Definition io_shape : ftype := TColl (TColl (TObj [TImm; TImm; TImm])).
+Definition io_value : val := VMut 1 [VMut 2 [VMut 3 [VImm 7; VImm 0; VImm 9]]].
+Example c16_shared_io_objects_refuted :
+  has_type io_shape io_value = true /\ isolates (CMap CShallow) io_shape = false
+  /\ In 3 (addrs (do_copy 100 (CMap CShallow) io_value)) /\ update 3 [VImm 8; VImm 0; VImm 9] io_value <> io_value
+  /\ isolates (CMap (CMap (CObj [CShare; CShare; CShare]))) io_shape = true
+  /\ addrs (do_copy 100 (CMap (CMap (CObj [CShare; CShare; CShare]))) io_value) = [101; 102; 103].
+Proof. repeat split; try (vm_compute; reflexivity); try discriminate. vm_compute. auto. Qed.
+Example c16_shared_resources_list_refuted :
+  let v := VMut 1 [VImm 4; VImm 5] in
+  has_type (TColl TImm) v = true /\ isolates CShare (TColl TImm) = false /\ In 1 (addrs (do_copy 100 CShare v))
+  /\ update 1 [VImm 4; VImm 5; VImm 6] v <> v /\ isolates CShallow (TColl TImm) = true /\ addrs (do_copy 100 CShallow v) = [101].
+Proof. cbv zeta. repeat split; try (vm_compute; reflexivity); try discriminate. vm_compute. auto. Qed.
+Definition shared_io_objects_break : bool := negb (isolates (CMap CShallow) io_shape) && negb (isolates CShare (TColl TImm)).
+
 (** * The whole property in one statement, for today's source (round 4)
     The hypotheses are the named booleans over the objects that translate/c16_fgd.py regenerates from the source on every run; the
     check discharges each of them, and their conjunction [c16_property_hypotheses], by vm_compute (instance obligations).  The
@@ -879,10 +970,10 @@ Definition multi_lazy_equals_eager_at (via : bool) (mode : merge_mode) : Prop :=
   = map (engine_dbase name ent bytes name_eqb decode ent_bases is_empty empty_bytes via mode g Bs) qs.
 Definition c16_property_hypotheses : bool :=
   line_cfg_ok gen_line_cfg && kv_type_prog_ok && io_type_prog_ok && type_table_ok && kind_keywords_read_back
-  && blocks_cfg_ok && lazy_via_get_ent && multi_modes_agree.
-Fact and8_true (a b c d e f g h : bool) : a && b && c && d && e && f && g && h = true ->
-  a = true /\ b = true /\ c = true /\ d = true /\ e = true /\ f = true /\ g = true /\ h = true.
-Proof. destruct a, b, c, d, e, f, g, h; cbn; intros; try discriminate; repeat split. Qed.
+  && blocks_cfg_ok && lazy_via_get_ent && multi_modes_agree && helper_args_ok && state_isolated.
+Fact and10_true (a b c d e f g h i j : bool) : a && b && c && d && e && f && g && h && i && j = true ->
+  a = true /\ b = true /\ c = true /\ d = true /\ e = true /\ f = true /\ g = true /\ h = true /\ i = true /\ j = true.
+Proof. destruct a, b, c, d, e, f, g, h, i, j; cbn; intros; try discriminate; repeat split. Qed.
 Fact line_cfg_ok_parts (c : line_cfg) : line_cfg_ok c = true -> colons_before_desc_without_default c = 2%nat /\ res_block_if_defined c = true.
 Proof.
   unfold line_cfg_ok. intros H. apply andb_true_iff in H as [H R]. apply andb_true_iff in H as [H _]. split; [apply Nat.eqb_eq; exact H | exact R].
@@ -903,13 +994,20 @@ Theorem c16_property : c16_property_hypotheses = true ->
         nodupN all = true -> pairs_ok all pairs = true ->
         (forall x, count_occ N.eq_dec order x = count_occ N.eq_dec (leftovers all (pair_loop gen_bcfg size maxsz pairs)) x) ->
         forall x, count_occ N.eq_dec (List.concat (build_with gen_bcfg size maxsz pairs order)) x = count_occ N.eq_dec all x)
-  /\ multi_lazy_equals_eager_at lazy_via_get_ent engine_dbase_merge.
+  /\ multi_lazy_equals_eager_at lazy_via_get_ent engine_dbase_merge
+  /\ (forall args, args_ok args -> paren_args_with gen_args_cfg (join_cs args) = args)
+  /\ (forall f t e, In (f, (t, e)) entity_copy_plan -> forall base v, has_type t v = true -> Forall (fun a => a < base) (addrs v) ->
+        forall a new, In a (addrs (do_copy base e v)) -> update a new v = v).
 Proof.
-  intros H. destruct (and8_true _ _ _ _ _ _ _ _ H) as (L & K & I & T & W & B & V & M). clear H.
+  intros H. destruct (and10_true _ _ _ _ _ _ _ _ _ _ H) as (L & K & I & T & W & B & V & M & A & S). clear H.
+  unfold helper_args_ok in A. apply andb_true_iff in A as [A _].
+  unfold state_isolated in S. apply andb_true_iff in S as [S _].
   destruct (line_cfg_ok_parts _ L) as [C2 R].
   unfold multi_modes_agree in M. apply andb_true_iff in M as [M _]. apply merge_is_first_eq in M.
   pose proof (type_text_property_gen kv_type_prog io_type_prog vt_lookup_tab TARGET_DESTINATION K I T) as (P1 & P2 & P3).
-  split; [|split; [|split; [|split]]].
+  split; [|split; [|split; [|split; [|split; [|split]]]]].
+  7: { intros f t e Hin. apply (plan_isolated (map snd entity_copy_plan) S t e). apply (in_map snd _ _ Hin). }
+  6: { intros. apply paren_args_with_roundtrip; assumption. }
   - unfold entity_text_roundtrip_at. intros. apply entity_roundtrip; assumption.
   - exact (conj P1 (conj P2 P3)).
   - apply kind_keyword_roundtrip. exact W.
